@@ -1,5 +1,5 @@
 #![allow(dead_code)]
-mod checks;
+pub mod checks;
 mod common;
 mod doc;
 mod form;
@@ -8,6 +8,7 @@ mod hdr;
 mod meta;
 mod qml;
 mod translate;
+mod uigrammar;
 mod vtypes;
 mod xml;
 
